@@ -75,7 +75,7 @@ def shell_codes(cart_lmax, pure_lmax, sp):
 def st_wf(draw, cart_lmax=6, pure_lmax=6, sp=True, ecp=True, kinds=("rhf", "rohf", "uhf")):
     natom = draw(st.sampled_from([1, 1, 2, 2, 3, 3, 4, 5]))
     codes = shell_codes(cart_lmax, pure_lmax, sp)
-    nshell = draw(st.integers(1, 7))
+    nshell = draw(st.sampled_from([1, 2, 3, 3, 4, 5, 6, 7, 9, 12]))
     shells = [
         [
             draw(st.integers(0, natom - 1)),
@@ -397,6 +397,7 @@ def st_model(big):
             "g03_spelling": st.booleans(),
             "psp_always": st.booleans(),
             "tiny": st.sampled_from([False] * 9 + [True]),
+            "ghost": st.sampled_from([False] * 4 + [True]),
             "trajectory": st.sampled_from([None, None, None, "opt", "scan", "irc"]),
             "max_nbasis": st.sampled_from([45, 45, 60] if big else [30, 40]),
         }
@@ -420,6 +421,15 @@ def build(spec):
     natom, n = wf["natom"], wf["nbasis"]
     kind = wf["kind"]
     norba, norbb = wf["norba"], wf["norbb"]
+    ghost = False
+    if spec["ghost"] and natom >= 2:
+        # a ghost centre (Bq): atomic number 0, no charge, possibly carrying basis functions
+        plain = [i for i in range(natom) if wf["atcore"][i] == wf["atnums"][i]]
+        if len(plain) >= 2:
+            ighost = plain[int(rng.integers(len(plain)))]
+            wf["atnums"][ighost] = 0
+            wf["atcore"][ighost] = 0.0
+            ghost = True
     if kind == "uhf" and spec["wf"]["diff_ab"] and norbb - 1 >= max(wf["nb"], 1):
         norbb -= 1
     ca = r9_array(wf["ca"][:, :norba])
@@ -435,7 +445,7 @@ def build(spec):
         "title": spec["title"], "header": spec["header"], "job": spec["job"],
         "basisname": spec["basisname"], "order": spec["order"], "extras": spec["extras"],
         "g03_spelling": spec["g03_spelling"], "psp_always": spec["psp_always"], "seed": spec["seed"],
-        "charge": int(round(wf["atcore"].sum())) - nelec, "nelec": nelec,
+        "charge": int(round(wf["atcore"].sum())) - nelec, "nelec": nelec, "ghost": ghost,
     }
     prefix = {"rhf": "R", "rohf": "RO", "uhf": "U"}[kind]
     model["method"] = prefix + spec["method"]
@@ -866,6 +876,8 @@ def labels(spec, model):
         out.append(f"trajectory:{model['traj']['kind']}")
         if len(model["traj"]["nsteps"]) >= 10:
             out.append("npoint>=10")
+    if model["ghost"]:
+        out.append("ghost_atom")
     if model["psp_always"] and "sp_shell" not in out:
         out.append("psp_record_without_sp_shell")
     return out
